@@ -20,13 +20,16 @@ class C02(Prop):
     rule = ("exhaustive grid (also in the quick tier): monotonic int/float axes of length 0-5, both directions, bounds "
             "from {None, below, each label, between, above}, steps {None,1,2,3,-1,-2}; shuffled numeric and str axes "
             "with bounds from the labels; every lookup of the grid is repeated on an axis whose ordering flag is already "
-            "cached and (one case in three each) with tol= given to the lookup / carried by the axis; + seeded random N-d "
+            "cached and (one case in three each) with tol= given to the lookup / carried by the axis; infinite bounds (+-numpy.inf as start and / or stop "
+            "on monotonic int / uint8 / int32 / float / float32 axes of length 0-5, every step: must select what a finite bound beyond "
+            "every label selects); + seeded random N-d "
             "arrays with slices mixed with other index kinds and position slices, in tuple, dict (.loc / .sel / .isel / "
             ".iloc / take), axis= forms, under both values of indexing.by, with tol= / .nloc / Axis(tol=), on cold and "
             "warmed axes. Observed at Axis.loc (positions selected on the axis, against the Lean spec and a second "
             "reading of the statement in Python) and through a[...] (Lean mirror + Python oracle). Non-trivial = "
             "axis length >= 1 and at least one bound not None; distinct = canonical JSON of the case")
-    assumptions = ["labels unique and NaN-free", "np.searchsorted / slice.indices as modelled in Prim"]
+    assumptions = ["labels unique and NaN-free", "np.searchsorted / slice.indices as modelled in Prim",
+                   "an infinite bound is put to the model and the spec as a finite bound beyond every label (labels are exact rationals in the model)"]
     exhaustive_tiers = {"quick": True, "thorough": True}
 
     def mirrors(self):
@@ -66,6 +69,32 @@ class C02(Prop):
                             yield {"op": "loc", "axis": ax, "ix": ["sl", None if s is None else enc(s),
                                                                  None if e is None else enc(e), st], "_src": "grid",
                                    "variants": ["warm"] + [["tol"], ["axis_tol"], []][count % 3]}
+
+    def inf_cases(self, maxlen=5):
+        """infinite bounds on monotonic numeric axes: `a[inf:]`, `a[:-inf]`, `a[-inf:3]` ... The closed interval from / to an
+        infinite bound selects what the interval from / to any finite bound beyond every label selects: the case carries that
+        finite bound in `ix` (for the model, the spec and the Python oracle) and `inf` says which bounds the implementation
+        is given as +-numpy.inf instead."""
+        steps = [None, 1, 2, -1, -2]
+        for kind in ("i", "f"):
+            for n in range(0, maxlen + 1):
+                base = [2 * k + 2 for k in range(n)] if kind == "i" else [Fraction(2 * k + 3, 2) for k in range(n)]
+                lowf, highf = Fraction(-50), Fraction(50)
+                mids = [None] + ([base[n // 2], base[n // 2] + Fraction(1, 2)] if n else [])
+                for direction in ("inc", "dec"):
+                    if n <= 1 and direction == "dec":
+                        continue
+                    labels = base if direction == "inc" else base[::-1]
+                    for ld in [None] + (["uint8", "int32"] if kind == "i" and n else []) + (["float32"] if kind == "f" and n else []):
+                        ax = {"name": "x", "kind": kind, "labels": [enc(v) for v in labels], "_order": direction}
+                        if ld:
+                            ax["ldtype"] = ld
+                        ends = [(m, 0) for m in mids] + [(highf, 1), (lowf, -1)]
+                        for (s, si), (e, ei), st in itertools.product(ends, ends, steps):
+                            if not (si or ei):
+                                continue
+                            yield {"op": "loc", "axis": ax, "ix": ["sl", None if s is None else enc(s), None if e is None else enc(e), st],
+                                   "inf": [si, ei], "_src": "inf", "variants": ["warm"]}
 
     def strict_cases(self, rng, n_axes):
         steps = [None, 1, 2, 3, -1, -2]
@@ -229,6 +258,8 @@ class C02(Prop):
             yield c
         for c in self.tie_cases():
             yield c
+        for c in self.inf_cases():
+            yield c
         for c in self.unsigned_cases():
             yield c
         for c in self.nd_cases(rng, 400 if tier == "quick" else 20000):
@@ -243,6 +274,9 @@ class C02(Prop):
         if c["op"] == "take":
             return c01.PROP.impl(c)
         ix = c01.py_index(c["ix"], c["axis"])
+        if c.get("inf"):
+            si, ei = c["inf"]
+            ix = slice(si * np.inf if si else ix.start, ei * np.inf if ei else ix.stop, ix.step)
         n = len(c["axis"]["labels"])
 
         ax0 = core.build_axis(c["axis"])
